@@ -56,7 +56,12 @@ type Immutable struct {
 	Pkg, Kind, Name, Where string
 }
 
+type TypeInv struct {
+	Pkg, Type, Pred, Where string
+}
+
 type ContractSet struct {
+	TypeInvs   []TypeInv
 	UFuncs     []UFDecl
 	Immutables []Immutable
 	Funcs  map[string]*Contract
@@ -221,6 +226,10 @@ func (cs *ContractSet) loadFile(path, repo string) {
 				cs.errf("%s: duplicate contract for %s", at, cur.Key)
 			}
 			cs.Funcs[cur.Key] = cur
+		case "typeinv":
+			flush()
+			tn, pn := splitWord(rest)
+			cs.TypeInvs = append(cs.TypeInvs, TypeInv{pkg, tn, pn, at})
 		case "ufunc":
 			flush()
 			m := regexp.MustCompile(`^(\w+)\s*\(([^)]*)\)\s*(\S+)$`).FindStringSubmatch(rest)
